@@ -32,6 +32,7 @@ fn main() {
             .collect();
         let lines: Vec<Vec<u64>> = match kind {
             "C02" => vm::run_c02(&nums),
+            "C03" => vm::run_c03(&nums),
             other => panic!("unknown case kind {other}"),
         };
         writeln!(output, "# {kind}").unwrap();
